@@ -87,7 +87,7 @@ theorem ok_push_reset {P : Perm} {k : Nat} (r : Reason) (hc : P.cut k) : P.ok (.
 grind_pattern ok_push_reset => P.ok (.push k (.reset r))
 
 /-- `pending_send.pop_front()`: the queue is replaced by its tail -/
-theorem pop_acc (k : Nat) (f : SFrame) (rest : List SFrame) (hq : (s.stream k).pendingSend = f :: rest) (hA : P.write)
+theorem pop_acc (k : Nat) (f : SFrame) (rest : List SFrame) (hq : (s.stream k).pendingSend = f :: rest) (hA : P.pop)
     (h : Tr P s0 s) : Tr P s0 (s.modStream k (setSendF rest)) := by
   refine modStream_lbl_acc (.pop k f) k _ rfl (fun _ => rfl) (fun a ha => ?_) hA h
   rw [stream_eq_of_get? ha] at hq
